@@ -296,37 +296,78 @@ def views(ctx, crate):
     b = ctx.anchor(crate, fn, clause)
     if b is not None:
         e = Engine(crate); e.run(fn); ctx.functions |= e.visited_fns
-        eqs = [d for d, loc in e.branches if loc[0] == fn and d[0] == 'op' and d[1] == 'eq']
+        eqs = [d for d, loc in e.branches if d[0] == 'op' and d[1] == 'eq' and (loc[0] == fn or loc[0].startswith(M))]     # in to_ranges or in a helper of the module it calls
+        if len([d for d, loc in e.branches if loc[0] == fn and d[0] == 'op' and d[1] == 'eq']) < 2:
+            # the two depth branches no longer test `start == pending end` in place (merged, or moved to a helper):
+            # these narrow rules read the in-place form only
+            ctx.not_decided("to_ranges: pending-range updates and flush (not written in place)"); return
         ctx.report(clause, "to_ranges:merge-only-adjacent", len(eqs) >= 2, "to_ranges extends the pending range only under %s" % [show(d)[:80] for d in eqs[:2]], at=b.span, kind="N")
-        # what the pending range becomes: with [S, E) the range of the current cell (S = h << 2Δ, E = (h + 1) << 2Δ;
-        # S = h, E = h + 1 for a cell of the deepest level), `S == pending.end` extends the end to E, anything
-        # else starts a new pending range [S, E)
+        # what the pending range becomes: with [S, E) the range of the current cell (S = h << 2D, E = (h + 1) << 2D,
+        # D = depth_max - depth), `S == pending.end` extends the end to E, anything else starts a new pending
+        # range [S, E).  Read semantically: every u64 written under such a test is evaluated at three (depth,
+        # hash, depth_max) triples, so the two depth branches may be written apart, merged, or moved to a helper.
+        from rules.common import feval
         e2 = Engine(crate); asg = []
+        in_mod = lambda loc: loc[0] == fn or str(loc[0]).startswith(M)
         def vh(v, loc, facts):
             lhs = e2.cur_lhs
-            if loc[0] == fn and not lhs["p"]: asg.append((lhs["l"], v, facts, loc))
+            if in_mod(loc): asg.append((v, facts, loc))          # locals, and places written through `&mut` parameters of a helper
         e2.value_hook = vh
+        e2.store_hook = lambda t, v, loc, facts: asg.append((v, facts, loc)) if in_mod(loc) else None
         e2.run(fn)
-        def end_of(S):
-            if S[0] == 'op' and S[1] == 'shl': return ('op', 'shl', S[2], ('op', 'add', S[2], S[3], C('u64', 1)), S[4])
-            return ('op', 'add', 'u64', S, C('u64', 1))
+        eqs2 = [d for d, loc in e2.branches if d[0] == 'op' and d[1] == 'eq' and in_mod(loc)]
+        di = crate.field_index("nested::bmoc::Cell", "depth"); hi = crate.field_index("nested::bmoc::Cell", "hash")
+        dmx = ('fld', ('deref', ('p', 'self')), crate.field_index("nested::bmoc::BMOC", "depth_max"))
+        cells_ = set()
+        def find_cell(t, depth=0):
+            if depth > 14 or not isinstance(t, tuple): return
+            if t[0] == 'fld' and t[2] in (di, hi) and t[1][0] in ('dc', 'fld', 'sym', 'phi', 'deref'): cells_.add(t[1])
+            if t[0] == 'phi':
+                for o in (e2.phi_gate.get(t) or ()): find_cell(o, depth + 1)
+                return
+            for x in t:
+                if isinstance(x, tuple): find_cell(x, depth + 1)
+        for d_ in eqs2: find_cell(d_)
         bad = []; n_ext = n_new = 0
-        for l, v, facts, loc in asg:
-            for f in facts:
-                if f[0] != 'b' or f[1][0] != 'op' or f[1][1] != 'eq' or f[1] not in eqs: continue
-                S, P = f[1][3], f[1][4]
-                if P[0] != 'phi' and S[0] == 'phi': S, P = P, S
-                E = end_of(S)
-                if f[2]:          # run extended: the only thing written is the new end
-                    if v == E or (S[0] != 'op' and v == ('op', 'add', 'u64', P, C('u64', 1))): n_ext += 1
-                    elif v[0] in ('op', 'phi', 'fld') or v[0] == 'c':
-                        if term_is_u64(v): bad.append(("extend", show(v)[:60], show(E)[:60]))
-                else:             # new pending range: start S, end E
-                    if v == S or v == E: n_new += 1
-                    elif v[0] == 'op' and term_is_u64(v) and v[1] in ('add', 'shl'): bad.append(("new", show(v)[:60], show(E)[:60]))
+        if len(cells_) >= 1:
+            for CELL in list(cells_)[:1]:
+                for v, facts, loc in asg:
+                    if not term_is_u64(v) or v[0] == 'c': continue
+                    for f in facts:
+                        if f[0] != 'b' or f[1] not in eqs2: continue
+                        S, P = f[1][3], f[1][4]
+                        verdicts = []
+                        for d0, h0, dm0 in ((2, 5, 2), (1, 3, 3), (0, 11, 2)):
+                            Sv, Ev = h0 << (2 * (dm0 - d0)), (h0 + 1) << (2 * (dm0 - d0))
+                            env = {('fld', CELL, di): d0, ('fld', CELL, hi): h0, dmx: dm0}
+                            # only the triples this site can see (e.g. depth == depth_max in the branch of the deepest cells)
+                            consistent = True
+                            for g_ in facts:
+                                if g_[0] != 'b' or g_ is f or g_[1] in eqs2: continue
+                                gv = feval(g_[1], env, e2)
+                                if gv is not None and bool(gv) != bool(g_[2]): consistent = False; break
+                            if not consistent: continue
+                            sv, pv = feval(S, env, e2), feval(P, env, e2)
+                            # which side is the start of the cell's range: the one that evaluates (the other is the pending end)
+                            start_side, pend = (S, P) if sv is not None else (P, S)
+                            st_val = sv if sv is not None else pv
+                            if st_val is None: verdicts.append(None); continue
+                            env2 = dict(env); env2[pend] = st_val if f[2] else st_val + 7      # equal under the test, anything else otherwise
+                            got = feval(v, env2, e2)
+                            if got is None: verdicts.append(None); continue
+                            if st_val != Sv: verdicts.append(("start", st_val, Sv)); continue
+                            verdicts.append(got == Ev if f[2] else got in (Sv, Ev))
+                        if not verdicts or any(x is None for x in verdicts): continue          # not a function of the cell (another local)
+                        if all(x is True for x in verdicts):
+                            if f[2]: n_ext += 1
+                            else: n_new += 1
+                        else: bad.append(("extend" if f[2] else "new", show(v)[:60], str(verdicts)))
+        ctx.report(clause, "to_ranges:pending-range-updates", not bad and n_ext >= 1 and n_new >= 2,
+                   "%d extension(s) to the end of the cell's range, %d (start, end) writes of a new pending range, read at 3 (depth, hash, depth_max) triples" % (n_ext, n_new) if not bad and n_ext >= 1 and n_new >= 2 else
+                   "a pending range is updated with %s (%s): %s" % (bad[0][1], bad[0][0], bad[0][2]) if bad else "updates not found (%d, %d)" % (n_ext, n_new), at=b.span, kind="N")
         # a pending range is written out only when it is not empty (prev_min != prev_max), and the last one is
         # written out after the loop under the same test
-        pushes = [ev for ev in e2.events.values() if ev.callee and strip_generics(ev.callee).endswith("Vec::push") and len(ev.site) == 2]
+        pushes = [ev for ev in e2.events.values() if ev.callee and strip_generics(ev.callee).endswith("Vec::push") and all(fr[0] == fn or str(fr[0]).startswith(M) for fr in ev.site)]
         def nonempty(ev):
             v = ev.args[1]
             if not (v[0] == 'agg' and len(v[3]) == 2): return False
@@ -335,9 +376,6 @@ def views(ctx, crate):
         okp = len(pushes) >= 3 and all(nonempty(ev) for ev in pushes)
         ctx.report(clause, "to_ranges:non-empty-pending-range-written", okp, "%d push sites, each `prev_min..prev_max` under prev_min != prev_max (two in the loop, one after it)" % len(pushes) if okp else
                    "a range is pushed without the test that it is not empty, or the final flush is missing (%d push sites)" % len(pushes), at=b.span, kind="N")
-        ctx.report(clause, "to_ranges:pending-range-updates", not bad and n_ext >= 2 and n_new >= 4,
-                   "%d extensions to the end of the cell's range, %d (start, end) of a new pending range" % (n_ext, n_new) if not bad and n_ext >= 2 and n_new >= 4 else
-                   "a pending range is updated with %s where the cell's range ends at %s (%s)" % (bad[0][1], bad[0][2], bad[0][0]) if bad else "updates not found (%d, %d)" % (n_ext, n_new), at=b.span, kind="N")
 
 
 def term_is_u64(v):
@@ -369,7 +407,9 @@ def flat_steps(ctx, crate, clause="views-share-decoders"):
                 base = cur[1] if cur[0] == 'fld' else None
                 extra = base is not None and v[3][0] == ('fld', base, 0) and v[3][3] == ('fld', base, 3) and v[3][1][0] == 'fld' and v[3][1][1] == ('deref', ('p', 'self'))
             else: extra = False
-            lt = [f for f in reps[0].facts if f[0] == 'b' and f[2] and f[1][0] == 'op' and f[1][1] == 'lt' and f[1][3] == cur]
+            from rules.common import cmp_facts
+            # `cur < last` in any orientation; for integers a failed `cur >= last` is the same test
+            lt = [1 for op, a_, c_, pos in cmp_facts(reps[0].facts) if a_ == cur and ((op == 'lt' and pos) or (op == 'ge' and not pos))]
             ok = cur is not None and extra and len(lt) == 1
             why = "next value = current + 1 under `current < last of the entry`" if ok else "the step is %s under %s" % (show(v)[:80], [show(f[1])[:40] for f in reps[0].facts if f[0] == 'b'][:3])
         n += 1
